@@ -61,32 +61,32 @@ def check_templates(C, tab):
                         n += 1
                         inst = "%s: %s starting with %s in mode %s" % (label, kind, lexer.cname(ch), lexer.mode_str(mv, m))
                         if cell is None or cell.get("kind") is None:
-                            ok = C.ob("C03/lexer-wellformed", inst, False, "no lexer cell / no token")
+                            ok = C.ob(RP + "/lexer-wellformed", inst, False, "no lexer cell / no token")
                             continue
                         if cell["kind"] != kind:
-                            ok = C.ob("C03/lexer-wellformed", inst, False, "lexed as %s, the grammar position requires %s" % (cell["kind"], kind), "src/lex.rs")
+                            ok = C.ob(RP + "/lexer-wellformed", inst, False, "lexed as %s, the grammar position requires %s" % (cell["kind"], kind), "src/lex.rs")
                             continue
                         k = cell.get("k") or ("?",)
                         if k[0] in ("bytes", "lenutf8"):
                             if rest is not None and rest:
                                 # a single-character token where the lexeme may be longer: the rest would become separate tokens
-                                ok = C.ob("C03/lexer-wellformed", inst, False, "token %s consumes one character but the lexeme may be longer" % kind, "src/lex.rs")
+                                ok = C.ob(RP + "/lexer-wellformed", inst, False, "token %s consumes one character but the lexeme may be longer" % kind, "src/lex.rs")
                                 continue
                         elif k[0] == "find":
                             rs = cell.get("runset")
                             if rs is None or (rest is not None and not rest <= rs) or (rest is None and False):
-                                ok = C.ob("C03/lexer-wellformed", inst, False, "token %s does not extend over the whole lexeme (stops on %s)" % (kind, sorted(lexer.cname(x) for x in (rest or set()) - (rs or set()))[:8]), "src/lex.rs")
+                                ok = C.ob(RP + "/lexer-wellformed", inst, False, "token %s does not extend over the whole lexeme (stops on %s)" % (kind, sorted(lexer.cname(x) for x in (rest or set()) - (rs or set()))[:8]), "src/lex.rs")
                                 continue
                             if rs & nxt_first:
-                                ok = C.ob("C03/lexer-wellformed", inst, False, "token %s runs into the next lexeme (swallows %s)" % (kind, sorted(lexer.cname(x) for x in rs & nxt_first)[:8]), "src/lex.rs")
+                                ok = C.ob(RP + "/lexer-wellformed", inst, False, "token %s runs into the next lexeme (swallows %s)" % (kind, sorted(lexer.cname(x) for x in rs & nxt_first)[:8]), "src/lex.rs")
                                 continue
                             if rest is None and (rs & first) - {ch} and kind not in ("NEWLINE",):
                                 pass
                         newmodes.add(cell["next"])
                 modes = newmodes
-            C.ob("C03/lexer-wellformed-line", label, ok, "some character class of this line form is not tokenised as the grammar requires (see C03/lexer-wellformed findings)", "src/lex.rs")
+            C.ob(RP + "/lexer-wellformed-line", label, ok, "some character class of this line form is not tokenised as the grammar requires (see C03/lexer-wellformed findings)", "src/lex.rs")
             if chosen[-1][0] == "NEWLINE":
-                C.ob("C03/lexer-line-start", label, modes <= {start} and bool(modes), "after the line's newline the lexer is in mode %s, expected line-start mode" % [lexer.mode_str(mv, m) for m in modes], "src/lex.rs")
+                C.ob(RP + "/lexer-line-start", label, modes <= {start} and bool(modes), "after the line's newline the lexer is in mode %s, expected line-start mode" % [lexer.mode_str(mv, m) for m in modes], "src/lex.rs")
             C.sample({"line": label, "lexer_modes_after": [lexer.mode_str(mv, m) for m in modes], "ok": ok})
     return n
 
@@ -121,28 +121,28 @@ def run(tier):
               ["rustc HIR/typeck", "rowan child iteration order", "hirai interpreter", "the oracle grammars in rules/deb822_parse.py and rules/c03.py (conservative reading of the property's domain)"])
     tab = lexer.extract(F)
     for kind, msg in tab["problems"]:
-        C.ob("C03/lexer-" + kind, msg[:120], False, msg)
+        C.ob(RP + "/lexer-" + kind, msg[:120], False, msg)
     n = check_templates(C, tab)
-    C.floor("C03/lexer-template-cells", n, 1500, "lexer cells visited by the line templates")
+    C.floor(RP + "/lexer-template-cells", n, 1500, "lexer cells visited by the line templates")
 
     # D1b/D2 product with the well-formed token grammar
     wf = deb822_parse.wellformed_dfa()
     for key in (STRICT, "<deb822_lossless::lossless::Paragraph as core::str::traits::FromStr>::from_str"):
-        if not C.ob("C03/anchor", key, F.fn(key) is not None, "entry point not found"):
+        if not C.ob(RP + "/anchor", key, F.fn(key) is not None, "entry point not found"):
             continue
         try:
             outs, mod, I = deb822_parse.run_entry(F, key, wf, structure=True)
         except hirai.Violation as e:
-            C.ob("C03/analysis", key, False, "analysis did not converge: %s" % e)
+            C.ob(RP + "/analysis", key, False, "analysis did not converge: %s" % e)
             continue
         short = "Paragraph::from_str" if "Paragraph" in key else "Deb822::from_str"
         for (rule, inst), (r, i, detail, loc) in sorted(mod.findings.items()):
-            C.ob("C03/" + rule, "%s: %s" % (short, inst), False, detail, loc)
-        C.ob("C03/O-accept-all-paths", short, not any(k[0].startswith("O-accept") for k in mod.findings), "syntax errors reachable on well-formed input", F.fn(key)["sp"])
-        C.ob("C03/O-structure-all-paths", short, not any(k[0].startswith("O-structure") for k in mod.findings), "structure violations reachable on well-formed input", F.fn(key)["sp"])
+            C.ob(RP + "/" + rule, "%s: %s" % (short, inst), False, detail, loc)
+        C.ob(RP + "/O-accept-all-paths", short, not any(k[0].startswith("O-accept") for k in mod.findings), "syntax errors reachable on well-formed input", F.fn(key)["sp"])
+        C.ob(RP + "/O-structure-all-paths", short, not any(k[0].startswith("O-structure") for k in mod.findings), "structure violations reachable on well-formed input", F.fn(key)["sp"])
         roles = set(mod.roles_seen)
         need = {"key-first", "key-next", "value", "para-comment", "top-comment", "blank-sep", "indent", "colon-ws"}
-        C.ob("C03/oracle-coverage", short, need <= roles, "grammar roles never reached by the product: %s" % sorted(need - roles))
+        C.ob(RP + "/oracle-coverage", short, need <= roles, "grammar roles never reached by the product: %s" % sorted(need - roles))
         nok = 0
         for ctl, v, s in outs:
             if ctl == OK and v[0] == "enum" and v[1] == OKV:
@@ -150,8 +150,8 @@ def run(tier):
             elif ctl == OK and v[0] == "enum" and v[1] == ERRV and "Paragraph" in key and not s.mon.get("err"):
                 nok += 1   # "no paragraphs" for an empty document is not a syntax error
             else:
-                C.ob("C03/strict-accepts", "%s: outcome %s" % (short, str(v)[:80]), False, "strict reader does not return Ok on a well-formed token sequence (control %s)" % ctl)
-        C.ob("C03/strict-accepts", short, nok >= 1, "no Ok outcome")
+                C.ob(RP + "/strict-accepts", "%s: outcome %s" % (short, str(v)[:80]), False, "strict reader does not return Ok on a well-formed token sequence (control %s)" % ctl)
+        C.ob(RP + "/strict-accepts", short, nok >= 1, "no Ok outcome")
         C.note("product-runs", "%s: %d outcomes, %d steps, %d loop-head states; roles %s" % (short, len(outs), I.steps, I.states_seen, sorted(roles)))
         C.extra.setdefault("states", 0)
         C.extra["states"] += I.states_seen
@@ -161,7 +161,7 @@ def run(tier):
     if pf:
         cs = [facts.callee(c) for c in facts.calls(pf["body"])]
         nexts = [c for c in cs if c.endswith("Iterator>::next") or c == "core::iter::traits::iterator::Iterator::next"]
-        C.ob("C03/paragraph-from-str-first", "Paragraph::from_str", STRICT in cs and "deb822_lossless::lossless::Deb822::paragraphs" in cs and len(nexts) == 1 and not any(("skip" in c or "last" in c or "nth" in c or "rev" in c) for c in cs),
+        C.ob(RP + "/paragraph-from-str-first", "Paragraph::from_str", STRICT in cs and "deb822_lossless::lossless::Deb822::paragraphs" in cs and len(nexts) == 1 and not any(("skip" in c or "last" in c or "nth" in c or "rev" in c) for c in cs),
              "must parse strictly and return paragraphs().next() (calls: %s)" % [c.split("::")[-1] for c in cs], pf["sp"])
 
     # D4 rejection
@@ -169,9 +169,9 @@ def run(tier):
         outs, mod, I = deb822_parse.run_entry(F, STRICT, junk_dfa(), structure=False)
         junk_seen = {"junk", "junk-nl"} & set(mod.roles_seen)
         bad = [(ctl, str(v)[:80]) for ctl, v, s in outs if not (ctl == OK and v[0] == "enum" and v[1] == ERRV)]
-        C.ob("C03/reject-junk-line", "Deb822::from_str", not bad and bool(junk_seen) and outs, "with one junk line the strict reader still returns %s (junk roles reached: %s)" % (bad[:3], sorted(junk_seen)), F.fn(STRICT)["sp"])
+        C.ob(RP + "/reject-junk-line", "Deb822::from_str", not bad and bool(junk_seen) and outs, "with one junk line the strict reader still returns %s (junk roles reached: %s)" % (bad[:3], sorted(junk_seen)), F.fn(STRICT)["sp"])
     except hirai.Violation as e:
-        C.ob("C03/analysis", "junk product", False, str(e))
+        C.ob(RP + "/analysis", "junk product", False, str(e))
 
     check_accessors(F, C)
     C.assumptions += ["well-formed domain read conservatively: LF line ends, whole-line comments in column 0, blank lines empty, continuation lines do not start with '#', names are printable ASCII without ':' not starting with '-'/'#'",
@@ -187,10 +187,23 @@ P = "deb822_lossless::lossless::"
 
 
 def atom(i, what):
-    return symstr.atom("%s%d" % (what, i), "line")
+    # value texts are 'raw': arbitrary line contents, possibly ending in blanks (the lexer keeps them inside VALUE)
+    return symstr.atom("%s%d" % (what, i), "raw" if what == "value" else "line")
 
 
-def check_accessors(F, C):
+RP = "C03"
+
+
+def check_accessors(F, C, rule_prefix="C03"):
+    global RP
+    RP = rule_prefix
+    try:
+        check_accessors_(F, C)
+    finally:
+        RP = "C03"
+
+
+def check_accessors_(F, C):
     mod = rowanmodel.RowanMod(F, KIND)
     tok, node, wrap = rowanmodel.tok, rowanmodel.node, rowanmodel.wrap
     n_eval = 0
@@ -221,7 +234,7 @@ def check_accessors(F, C):
 
     alphabet = ["KEY", "VALUE", "NEWLINE", "COMMENT"]
     for fn in ("Entry::key", "Entry::value", "Paragraph::get", "Paragraph::get_all", "Paragraph::keys", "Paragraph::items", "Paragraph::contains_key", "Paragraph::entries", "Deb822::paragraphs"):
-        C.ob("C03/anchor", P + fn, F.fn(P + fn) is not None, "accessor not found")
+        C.ob(RP + "/anchor", P + fn, F.fn(P + fn) is not None, "accessor not found")
     # Entry::key / Entry::value on all token sequences of length <= 3
     for ln in range(0, 4):
         for ks in itertools.product(alphabet, repeat=ln):
@@ -231,7 +244,7 @@ def check_accessors(F, C):
             res, I = call(P + "Entry::key", e)
             n_eval += 1
             got = {normalize_opt(I, s, v) for ctl, v, s in res if ctl == OK}
-            C.ob("C03/accessor-key", "Entry::key on %s" % (list(ks),), len(res) == 1 and got == {("some", symstr.show(want_key)) if want_key else ("none",)},
+            C.ob(RP + "/accessor-key", "Entry::key on %s" % (list(ks),), len(res) == 1 and got == {("some", symstr.show(want_key)) if want_key else ("none",)},
                  "yields %s, expected the text of the first KEY token (%s)" % (sorted(got), symstr.show(want_key) if want_key else None), F.fn(P + "Entry::key")["sp"])
             res, I = call(P + "Entry::value", e)
             n_eval += 1
@@ -242,7 +255,7 @@ def check_accessors(F, C):
                 want_pieces.extend(symstr.pieces_of(v))
             want = symstr.show(symstr.mk(want_pieces))
             got = {symstr.show(I.deref_val(s, v)) if I.deref_val(s, v)[0] in ("sstr", "str") else str(v)[:60] for ctl, v, s in res if ctl == OK}
-            C.ob("C03/accessor-value", "Entry::value on %s" % (list(ks),), len(res) == 1 and got == {want},
+            C.ob(RP + "/accessor-value", "Entry::value on %s" % (list(ks),), len(res) == 1 and got == {want},
                  "yields %s, expected the VALUE token texts joined by newline (%r)" % (sorted(got), want), F.fn(P + "Entry::value")["sp"])
     # paragraph-level accessors on child sequences over {ENTRY(key=a), ENTRY(key=b), COMMENT token}
     def ent(i, keyname):
@@ -264,12 +277,12 @@ def check_accessors(F, C):
             n_eval += 1
             want = next((v for k, v in model if k == "A"), None)
             got = {normalize_opt(I, s, v) for ctl, v, s in res if ctl == OK}
-            C.ob("C03/accessor-get", "Paragraph::get(\"A\") on %s" % lbl, len(res) == 1 and got == {("some", want) if want else ("none",)},
+            C.ob(RP + "/accessor-get", "Paragraph::get(\"A\") on %s" % lbl, len(res) == 1 and got == {("some", want) if want else ("none",)},
                  "yields %s, expected the first field named A (%s)" % (sorted(got), want), F.fn(P + "Paragraph::get")["sp"])
             res, I = call(P + "Paragraph::contains_key", para, [symstr.lit("B")])
             n_eval += 1
             got = {v for ctl, v, s in res if ctl == OK}
-            C.ob("C03/accessor-contains", "Paragraph::contains_key(\"B\") on %s" % lbl, len(res) == 1 and got == {("bool", any(k == "B" for k, _ in model))},
+            C.ob(RP + "/accessor-contains", "Paragraph::contains_key(\"B\") on %s" % lbl, len(res) == 1 and got == {("bool", any(k == "B" for k, _ in model))},
                  "yields %s" % sorted(map(str, got)), F.fn(P + "Paragraph::contains_key")["sp"])
             for fn, wantl in (("keys", [k for k, _ in model]), ("items", [(k, v) for k, v in model])):
                 res, I = call(P + "Paragraph::" + fn, para)
@@ -285,7 +298,7 @@ def check_accessors(F, C):
                                 gl.append(tuple(symstr.show(I.deref_val(res[0][2], x)) for x in it[1]))
                             else:
                                 gl.append(symstr.show(it))
-                C.ob("C03/accessor-" + fn, "Paragraph::%s on %s" % (fn, lbl), gl == wantl, "yields %s, expected %s (file order, duplicates included)" % (gl, wantl), F.fn(P + "Paragraph::" + fn)["sp"])
+                C.ob(RP + "/accessor-" + fn, "Paragraph::%s on %s" % (fn, lbl), gl == wantl, "yields %s, expected %s (file order, duplicates included)" % (gl, wantl), F.fn(P + "Paragraph::" + fn)["sp"])
             res, I = call(P + "Paragraph::get_all", para, [symstr.lit("A")])
             n_eval += 1
             gl = None
@@ -293,7 +306,7 @@ def check_accessors(F, C):
                 items = collect_iter(I, res[0][2], res[0][1])
                 if items is not None:
                     gl = [symstr.show(I.deref_val(res[0][2], x)) for x in items]
-            C.ob("C03/accessor-get_all", "Paragraph::get_all(\"A\") on %s" % lbl, gl == [v for k, v in model if k == "A"], "yields %s" % gl, F.fn(P + "Paragraph::get_all")["sp"])
+            C.ob(RP + "/accessor-get_all", "Paragraph::get_all(\"A\") on %s" % lbl, gl == [v for k, v in model if k == "A"], "yields %s" % gl, F.fn(P + "Paragraph::get_all")["sp"])
     # Deb822::paragraphs on ROOT child sequences over {PARAGRAPH, EMPTY_LINE}
     for ln in range(0, 4):
         for shape in itertools.product(["P", "E"], repeat=ln):
@@ -311,8 +324,8 @@ def check_accessors(F, C):
                         inner = it[2][0] if it[0] == "enum" else dict(it[2]).get("0") if it[0] == "struct" else it
                         inner = I.deref_val(res[0][2], inner)
                         gl.append(inner[4] if inner[0] == "abs" and inner[1] == "node" else "?")
-            C.ob("C03/accessor-paragraphs", "Deb822::paragraphs on %s" % list(shape), gl == [i for i, s in enumerate(shape) if s == "P"], "yields children %s" % gl, F.fn(P + "Deb822::paragraphs")["sp"])
-    C.floor("C03/accessor-evaluations", n_eval, 385, "accessor evaluations")
+            C.ob(RP + "/accessor-paragraphs", "Deb822::paragraphs on %s" % list(shape), gl == [i for i, s in enumerate(shape) if s == "P"], "yields children %s" % gl, F.fn(P + "Deb822::paragraphs")["sp"])
+    C.floor(RP + "/accessor-evaluations", n_eval, 385, "accessor evaluations")
 
 
 def normalize_opt(I, s, v):
